@@ -356,7 +356,8 @@ def rule_R4(res, prog, cg, c, prop=None, rid="C02.R4", directions=("open", "seal
     g, rows = tables.cipher_rows(prog)
     fl = tables.crypto_flags(prog)
     cs = tables.cs_types(prog)
-    dtls = prog.const("USE_DTLS", required=False) is not None or "USE_DTLS" in prog.macros
+    # USE_DTLS is an empty macro (no value in the IR): DTLS is configured when its replay-window code is compiled
+    dtls = bool(prog.by_name.get("dtlsChkReplayWindow"))
     seen = set()
     n = 0
     for r in rows:
